@@ -618,13 +618,38 @@ type ckGate struct {
 	done    chan ckEvent
 }
 
+// ckGateDB hands the restorer batches whose Commit, once it has returned, passes ckAfterCommit: the point at which a RestoreChunk
+// caller has made its chunk durable and has not yet taken the restorer's lock again (no hook in the repository is needed: the
+// restorer takes its node database as an interface).
+type ckGateDB struct{ dbapi.NodeDB }
+
+type ckGateBatch struct{ dbapi.Batch }
+
+var ckAfterCommit atomic.Value // func()
+
+func (d ckGateDB) NewBatch(oldRoot node.Root, version uint64, chunk bool) (dbapi.Batch, error) {
+	b, err := d.NodeDB.NewBatch(oldRoot, version, chunk)
+	if err != nil {
+		return nil, err
+	}
+	return ckGateBatch{b}, nil
+}
+
+func (b ckGateBatch) Commit(root node.Root) error {
+	err := b.Batch.Commit(root)
+	if f, _ := ckAfterCommit.Load().(func()); f != nil {
+		f()
+	}
+	return err
+}
+
 func (x *ckExec) open() error {
 	ndb, err := openNodeDB(x.w.backend, x.dir)
 	if err != nil {
 		return err
 	}
 	x.ndb = ndb
-	x.rs, err = checkpoint.NewRestorer(ndb)
+	x.rs, err = checkpoint.NewRestorer(ckGateDB{ndb})
 	x.mp, x.rsV, x.forged = 0, 0, 0
 	return err
 }
@@ -926,7 +951,7 @@ func (x *ckExec) step(s *ckStep) ckEvent {
 			full = !x.heavy
 		case "gate":
 			e["i"] = s.I
-			x.startGate(s.I, e)
+			x.startGate(s.I, e, s.Kind == "post")
 		case "release":
 			if x.gate == nil {
 				e["res"] = "nogate"
@@ -943,6 +968,7 @@ func (x *ckExec) step(s *ckStep) ckEvent {
 			}
 			x.gate = nil
 			verifhook.Set(nil)
+			ckAfterCommit.Store((func())(nil))
 			hookMu.Unlock()
 			full = true
 		case "abortrs":
@@ -1011,7 +1037,7 @@ var ckGatePoints = map[string]bool{"badger.commit.mplog_flushed": true, "path.co
 
 // startGate starts RestoreChunk(i) in its own goroutine and blocks it at the first durable write of the chunk commit.
 // The process-global hook is held until the matching release step.
-func (x *ckExec) startGate(i int, e ckEvent) {
+func (x *ckExec) startGate(i int, e ckEvent, post bool) {
 	hookMu.Lock()
 	g := &ckGate{i: i, release: make(chan struct{}), reached: make(chan struct{}), done: make(chan ckEvent, 1)}
 	x.gate = g
@@ -1019,8 +1045,21 @@ func (x *ckExec) startGate(i int, e ckEvent) {
 	var gid atomic.Value
 	gid.Store("")
 	var once sync.Once
+	if post {
+		// held after the chunk's batch commit has returned (the chunk is durable), before the restorer's lock is taken again
+		ckAfterCommit.Store(func() {
+			if goid() == gid.Load().(string) {
+				first := false
+				once.Do(func() { first = true })
+				if first {
+					close(g.reached)
+					<-g.release
+				}
+			}
+		})
+	}
 	verifhook.Set(func(name string) {
-		if ckGatePoints[name] && goid() == gid.Load().(string) {
+		if !post && ckGatePoints[name] && goid() == gid.Load().(string) {
 			first := false
 			once.Do(func() { first = true })
 			if first {
@@ -1053,6 +1092,7 @@ func (x *ckExec) abandonGate() {
 		<-x.gate.done
 		x.gate = nil
 		verifhook.Set(nil)
+		ckAfterCommit.Store((func())(nil))
 		hookMu.Unlock()
 	}
 }
